@@ -164,3 +164,59 @@ def check_pointer_window_rebased(ctx, fi,
                  'subtracting its first pointer: the copy points into the '
                  'source arrays, not into the arrays cut out with it')
     return n
+
+
+def check_converted_pointer_extent(ctx, fi,
+                                   rule='R-AXIS/converted-pointer-extent'):
+    """a function that converts a sparse group to the other orientation
+    (csc_to_csr, csr_to_csc, pivot, transpose) writes a pointer array over
+    the *other* axis: its length comes from the shape / the largest index,
+    its content from counting indices.  An output 'indptr' whose data or
+    shape is taken from the input group's own 'indptr' (`zeros_like(
+    group['indptr'])`, `shape=group['indptr'].shape`) has the extent of the
+    wrong axis, right only for square matrices."""
+    from ..core.cfg import cfg_of
+    from ..core.defuse import rd_of, Expander, term_contains
+    if not any(w in fi.name for w in ('csc_to_csr', 'csr_to_csc', 'pivot',
+                                      'transpose')):
+        return 0
+    cfg = cfg_of(fi)
+    rd = rd_of(fi)
+    ex = None
+    n = 0
+    params = set(fi.params)
+
+    def input_pointer(t):
+        return isinstance(t, tuple) and t and t[0] == 'sub' \
+            and t[2] == ('const', "'indptr'") and isinstance(t[1], tuple) \
+            and t[1][:1] == ('param',) and t[1][1] in params
+
+    for node in cfg.nodes:
+        if node.id not in rd.live:
+            continue
+        for c in cfg.calls_in(node):
+            if not (isinstance(c.func, ast.Attribute)
+                    and c.func.attr == 'create_dataset' and c.args
+                    and isinstance(c.args[0], ast.Constant)
+                    and c.args[0].value == 'indptr'):
+                continue
+            if ex is None:
+                ex = Expander(fi)
+            n += 1
+            bad = None
+            for k in c.keywords:
+                if k.arg in ('data', 'shape'):
+                    t = ex.expand(k.value, node.id)
+                    if term_contains(t, input_pointer):
+                        bad = k
+            ctx.touch(fi)
+            ctx.ob(rule, f'{fi.qual}:indptr#{n - 1}', fi.loc(c),
+                   bad is None,
+                   'the output pointer array is not shaped like the '
+                   'input\'s' if bad is None else
+                   f'`{unparse(bad.value)[:50]}` gives the output pointer '
+                   'array the extent of the input group\'s own pointer '
+                   'array, i.e. of the axis that is being converted away '
+                   'from: one entry per column where one per row is '
+                   'needed')
+    return n
